@@ -7,6 +7,7 @@ import (
 	"go/token"
 	"go/types"
 	"os"
+	"sort"
 	"strings"
 
 	"golang.org/x/tools/go/ssa"
@@ -416,6 +417,7 @@ func (vc *VC) applyContractFull(st *State, spec *FuncSpec, names []string, args 
 	}
 	pre := st.clone(vc)
 	env := &Env{vc: vc, st: pre, old: pre, vars: map[string]Term{}, pkg: pkg}
+	env.existed = vc.existedBeforeCall(spec)
 	// the callee's own frame: one level below the caller's
 	if true {
 		fr := vc.fresh("fr", "Int")
@@ -497,11 +499,11 @@ func (vc *VC) applyContractFull(st *State, spec *FuncSpec, names []string, args 
 		res = []Term{*pcRes}
 	}
 	if !spec.Pure {
-		menv := &Env{vc: vc, st: pre, old: pre, vars: map[string]Term{}, pkg: pkg, parent: env}
+		menv := &Env{vc: vc, st: pre, old: pre, vars: map[string]Term{}, pkg: pkg, parent: env, existed: env.existed}
 		vc.bindResults(menv, sig, spec, res)
 		vc.applyModifiesB(st, spec, menv, guard, vc.valueOnlyCall(pkg, args))
 	}
-	post := &Env{vc: vc, st: st, old: pre, vars: env.vars, pkg: pkg}
+	post := &Env{vc: vc, st: st, old: pre, vars: env.vars, pkg: pkg, existed: env.existed}
 	vc.bindResults(post, sig, spec, res)
 	// ghost assignments the callee performs at its return, in order
 	for _, c := range spec.clauses("ghostset") {
@@ -1150,6 +1152,9 @@ func (vc *VC) rangeFuncCall(st *State, v *ssa.Call, seq Term, mc *ssa.MakeClosur
 	vc.P.prelude.use(vc, itemFun)
 	n := sx("seq_len", seq.S)
 	vc.assume(sx(">=", n, "0"))
+	// existed(x): x existed when the range statement started (everything this function has allocated
+	// or named so far, and everything that existed when it was entered)
+	existed := vc.existedPredicate("rf_existed")
 	bindings := map[string]Term{}
 	for i, f := range yf.FreeVars {
 		if i < len(mc.Bindings) {
@@ -1163,6 +1168,7 @@ func (vc *VC) rangeFuncCall(st *State, v *ssa.Call, seq Term, mc *ssa.MakeClosur
 		e.vars["$k"] = Term{S: k, Sort: "Int", T: types.Typ[types.Int]}
 		e.vars["$n"] = Term{S: n, Sort: "Int", T: types.Typ[types.Int]}
 		e.vars["$seq"] = seq
+		e.vars["$existed"] = Term{S: existed, Sort: "Pred"}
 		if j, ok := bindings["&#0"]; ok {
 			e.vars["$jump"] = vc.load(s, j)
 		}
@@ -1185,12 +1191,55 @@ func (vc *VC) rangeFuncCall(st *State, v *ssa.Call, seq Term, mc *ssa.MakeClosur
 	for i, f := range inv(st, "0") {
 		vc.oblige(kind+".established", invs[i].label(), invs[i].Props, guard, f, "invariant holds before the first item: "+invs[i].Text, pos)
 	}
+	// existed(x): x existed when the range statement started (everything this function has allocated
+	// or named so far, and everything that existed when it was entered)
+	// the effect of any number of earlier iterations: the captured variables the body may write are
+	// arbitrary; locations it reaches through those variables (the elements of a slice it grows, ...)
+	// are arbitrary except in objects that existed when the range statement started -- each iteration
+	// is obliged (below) to write such locations only in objects created since.
+	var dynamic []modTarget
+	dynAlloc := ""
 	havocFrame := func(s *State) {
 		menv := &Env{vc: vc, st: s, old: s, vars: map[string]Term{}, pkg: vc.pkgOf(yf)}
 		for k, t := range bindings {
 			menv.vars[k] = t
 		}
-		vc.applyModifies(s, ysp, menv, guard)
+		targets, all, foreign := vc.modifiesTargets3(ysp, menv)
+		if all {
+			vc.havocAll(s, "")
+			return
+		}
+		if foreign {
+			vc.havocForeign(s, "")
+		}
+		dynamic = nil
+		for _, t := range targets {
+			switch {
+			case t.idx == "":
+				vc.havoc(s, t.name, t.sort)
+			case strings.Contains(t.idx, "(select cell_") || strings.Contains(t.idx, "(select F_"):
+				dynamic = append(dynamic, t)
+			default:
+				parts := splitSortArgs(t.sort)
+				vc.setAt(s, t.name, t.sort, t.idx, vc.fresh("hv", parts[1]))
+			}
+		}
+		for _, t := range dynamic {
+			if !strings.HasPrefix(t.sort, "(Array Int ") {
+				vc.havoc(s, t.name, t.sort)
+				continue
+			}
+			old := vc.get(s, t.name, t.sort)
+			nw := vc.fresh(t.name, t.sort)
+			s.vals[t.name] = nw
+			// for the analysis of enclosing loops these are writes to objects created inside the loop
+			// (obliged below: rangefuncK.frame)
+			if dynAlloc == "" {
+				dynAlloc = vc.allocRef("rf_objects_" + fmt.Sprint(ord))
+			}
+			vc.markWrittenAt(t.name, dynAlloc)
+			vc.assume(fmt.Sprintf("(forall ((x Int)) (! (=> (%s x) (= (select %s x) (select %s x))) :pattern ((select %s x))))", existed, nw, old, nw))
+		}
 	}
 	// one arbitrary item
 	pre := st.clone(vc)
@@ -1212,8 +1261,26 @@ func (vc *VC) rangeFuncCall(st *State, v *ssa.Call, seq Term, mc *ssa.MakeClosur
 		}
 		names = append(names, nm)
 	}
+	// what this iteration writes through the captured variables lies in objects created since the range
+	// statement started (this is what keeps everything older unchanged across the iterations)
+	{
+		menv := &Env{vc: vc, st: step, old: step, vars: map[string]Term{}, pkg: vc.pkgOf(yf)}
+		for k, t := range bindings {
+			menv.vars[k] = t
+		}
+		targets, _, _ := vc.modifiesTargets3(ysp, menv)
+		for _, t := range targets {
+			if t.idx != "" && (strings.Contains(t.idx, "(select cell_") || strings.Contains(t.idx, "(select F_")) && strings.HasPrefix(t.sort, "(Array Int ") {
+				vc.oblige(kind+".frame", t.name, vc.nopanicProps(), stepGuard, or(sx("=", t.idx, "0"), not(sx(existed, t.idx))),
+					"the loop body writes "+t.name+" through its captured variables only in objects created since the range statement started", pos)
+			}
+		}
+	}
 	// the body's contract: precondition checked, frame havocked, postcondition assumed
+	saveGuard := vc.curGuard
+	vc.curGuard = stepGuard
 	res := vc.applyContractRes(step, ysp, names, []Term{item}, yf.Signature, stepGuard, pos, label+" (one item)", vc.pkgOf(yf), bindings)
+	vc.curGuard = saveGuard
 	r := res[0].S
 	for i, f := range inv(step, sx("+", k0, "1")) {
 		vc.oblige(kind+".preserved", invs[i].label(), invs[i].Props, and(stepGuard, r), f, "invariant preserved by the loop body: "+invs[i].Text, pos)
@@ -1230,4 +1297,80 @@ func (vc *VC) rangeFuncCall(st *State, v *ssa.Call, seq Term, mc *ssa.MakeClosur
 	merged := vc.merge([]parentEdge{{and(guard, early), step}, {doneGuard, done}})
 	merged.defers = st.defers
 	*st = *merged
+}
+
+// existedBeforeCall: when the callee's contract speaks of fresh()/isold(), these refer to the moment of
+// the call: a per-call predicate that holds of everything that existed when this function was entered,
+// of every allocation this function has made so far and of every reference it has named so far.
+// (References reachable only through heap locations not yet read are not covered: fresh() then gives
+// no distinctness from them, which is the safe direction.)
+func (vc *VC) existedBeforeCall(spec *FuncSpec) string {
+	uses := false
+	for _, c := range spec.Clauses {
+		if c.Kind == "ensures" || c.Kind == "requires" || c.Kind == "modifies" {
+			if strings.Contains(c.Text, "fresh(") || strings.Contains(c.Text, "isold(") || strings.Contains(c.Text, "refsFresh(") {
+				uses = true
+			}
+		}
+	}
+	if !uses {
+		for _, sfn := range vc.P.spec.SpecFuns {
+			_ = sfn
+		}
+		return ""
+	}
+	return vc.existedPredicate("pre_call")
+}
+
+// existedPredicate declares a predicate that holds of everything that existed when this function was
+// entered, of every allocation it has made so far and of every reference it has named so far.
+func (vc *VC) existedPredicate(prefix string) string {
+	vc.callN++
+	p := fmt.Sprintf("%s_%d", prefix, vc.callN)
+	vc.declareFun(p, []string{"Int"}, "Bool")
+	// what existed at an earlier point of the execution still exists (only sound along one path: the
+	// predicates are chained in the order the generator meets them, which follows the control flow
+	// because blocks are executed in topological order and a later predicate is only ever used on
+	// paths through its own block)
+	if vc.lastExisted != "" && vc.lastExistedBlock != nil && vc.curBlock != nil && vc.lastExistedBlock.Dominates(vc.curBlock) {
+		vc.assume(fmt.Sprintf("(forall ((x Int)) (! (=> (%s x) (%s x)) :pattern ((%s x)) :pattern ((%s x))))", vc.lastExisted, p, vc.lastExisted, p))
+	}
+	vc.lastExisted, vc.lastExistedBlock = p, vc.curBlock
+	// what existed when an enclosing loop started exists now
+	if vc.curBlock != nil {
+		for _, li := range vc.loops {
+			if li.blocks[vc.curBlock] {
+				vc.declarePre(li.ordinal)
+				pl := fmt.Sprintf("pre_L%d", li.ordinal)
+				vc.assume(fmt.Sprintf("(forall ((x Int)) (! (=> (%s x) (%s x)) :pattern ((%s x)) :pattern ((%s x))))", pl, p, pl, p))
+			}
+		}
+	}
+	vc.assume(fmt.Sprintf("(forall ((x Int)) (! (=> (is_old x) (%s x)) :pattern ((%s x))))", p, p))
+	vc.assume(sx(p, "0"))
+	for _, a := range vc.allocs {
+		vc.assume(sx(p, a))
+	}
+	var names []string
+	for v, t := range vc.vals {
+		if t.Loc != nil {
+			continue
+		}
+		switch t.Sort {
+		case "Int":
+			switch types.Unalias(v.Type()).Underlying().(type) {
+			case *types.Pointer, *types.Map, *types.Chan, *types.Signature:
+				names = append(names, sx(p, t.S))
+			}
+		case "Slice":
+			names = append(names, sx(p, sx("sl_ref", t.S)))
+		case "Iface":
+			names = append(names, sx(p, sx("if_val", t.S)))
+		}
+	}
+	sort.Strings(names)
+	for _, n := range names {
+		vc.assume(n)
+	}
+	return p
 }
